@@ -64,6 +64,7 @@ Definition sstep (a : sst) (o : op) : sst * obs :=
       | BOk tag => (a1, BRan tag)
       | other => (a1, other)
       end
+  | OReset => (mkS1 (fun _ => None) (sfiles a), BDone)
   end.
 
 Fixpoint spec_from (a : sst) (ops : list op) : list obs :=
@@ -75,9 +76,10 @@ Fixpoint spec_from (a : sst) (ops : list op) : list obs :=
 Definition spec_run (ops : list op) : list obs := spec_from sinit ops.
 
 (* the name an operation is about *)
-Definition op_name (o : op) : N :=
+Definition op_name (o : op) : option N :=
   match o with
-  | OSetFile n _ | OCompile n _ _ | ORequest n _ | ORun n | OExec n => n
+  | OSetFile n _ | OCompile n _ _ | ORequest n _ | ORun n | OExec n => Some n
+  | OReset => None
   end.
 
 (* ------------------------------------------------------------------ Part 2 *)
